@@ -133,6 +133,147 @@ impl<'a, E: Endianity, const K: usize> Reader for FixLeb<'a, E, K> {
     }
 }
 
+/// `PosLeb<K>`: `FixLeb<K>` that additionally tracks its section offset as an integer, so that `offset_from` is
+/// an integer subtraction instead of a pointer difference (which the symbolic executor cannot fold to a constant:
+/// after a taken DW_OP_skip/bra the next operation would be decoded at a symbolic position).
+/// Original description of FixLeb: the real `EndianSlice`, except that the five LEB128 trait methods decode exactly K
+/// bytes with straight-line code and *assume* the continuation-bit pattern of a well-formed K-byte
+/// LEB128 (so that reader positions stay concrete for the symbolic executor).  The real LEB
+/// decoders are decided separately and completely in C09.
+#[derive(Debug, Clone, Copy)]
+pub struct PosLeb<'a, E: Endianity, const K: usize>(pub EndianSlice<'a, E>, pub usize);
+
+/// two PosLeb readers are equal when they are the same view (same address and length)
+impl<'a, E: Endianity, const K: usize> PartialEq for PosLeb<'a, E, K> {
+    fn eq(&self, o: &Self) -> bool {
+        self.0.slice().as_ptr() == o.0.slice().as_ptr() && self.0.len() == o.0.len()
+    }
+}
+
+impl<'a, E: Endianity, const K: usize> PosLeb<'a, E, K> {
+    pub fn new(buf: &'a [u8], e: E) -> Self {
+        PosLeb(EndianSlice::new(buf, e), 0)
+    }
+    fn leb_raw(&mut self) -> Result<(u64, u8)> {
+        let mut v = 0u64;
+        let mut last = 0u8;
+        let mut i = 0;
+        while i < K {
+            let b = self.0.read_u8()?;
+            self.1 += 1;
+            #[cfg(kani)]
+            {
+                kani::assume((b & 0x80 != 0) == (i + 1 < K));
+                kani::assume(i < 9 || (b & 0x7f) <= 1);
+            }
+            if i < 10 {
+                v |= u64::from(b & 0x7f) << (7 * i as u32).min(63);
+            }
+            last = b;
+            i += 1;
+        }
+        Ok((v, last))
+    }
+}
+
+impl<'a, E: Endianity, const K: usize> Reader for PosLeb<'a, E, K> {
+    type Endian = E;
+    type Offset = usize;
+    #[inline]
+    fn endian(&self) -> E {
+        self.0.endian()
+    }
+    #[inline]
+    fn len(&self) -> usize {
+        self.0.len()
+    }
+    #[inline]
+    fn empty(&mut self) {
+        self.0.empty()
+    }
+    #[inline]
+    fn truncate(&mut self, len: usize) -> Result<()> {
+        self.0.truncate(len)
+    }
+    #[inline]
+    fn offset_from(&self, base: &Self) -> usize {
+        self.1 - base.1
+    }
+    #[inline]
+    fn offset_id(&self) -> ReaderOffsetId {
+        self.0.offset_id()
+    }
+    #[inline]
+    fn lookup_offset_id(&self, id: ReaderOffsetId) -> Option<usize> {
+        self.0.lookup_offset_id(id)
+    }
+    #[inline]
+    fn find(&self, byte: u8) -> Result<usize> {
+        Reader::find(&self.0, byte)
+    }
+    #[inline]
+    fn skip(&mut self, len: usize) -> Result<()> {
+        self.0.skip(len)?;
+        self.1 += len;
+        Ok(())
+    }
+    #[inline]
+    fn split(&mut self, len: usize) -> Result<Self> {
+        let at = self.1;
+        let piece = self.0.split(len)?;
+        self.1 += len;
+        Ok(PosLeb(piece, at))
+    }
+    #[inline]
+    fn to_slice(&self) -> Result<Cow<'_, [u8]>> {
+        self.0.to_slice()
+    }
+    #[inline]
+    fn to_string(&self) -> Result<Cow<'_, str>> {
+        Reader::to_string(&self.0)
+    }
+    #[inline]
+    fn to_string_lossy(&self) -> Result<Cow<'_, str>> {
+        Reader::to_string_lossy(&self.0)
+    }
+    #[inline]
+    fn read_slice(&mut self, buf: &mut [u8]) -> Result<()> {
+        let n = buf.len();
+        Reader::read_slice(&mut self.0, buf)?;
+        self.1 += n;
+        Ok(())
+    }
+    // ---- the five overridden methods ----
+    fn skip_leb128(&mut self) -> Result<()> {
+        self.leb_raw().map(|_| ())
+    }
+    fn read_uleb128(&mut self) -> Result<u64> {
+        self.leb_raw().map(|x| x.0)
+    }
+    fn read_uleb128_u32(&mut self) -> Result<u32> {
+        let v = self.leb_raw()?.0;
+        u32::try_from(v).map_err(|_| Error::BadUnsignedLeb128)
+    }
+    fn read_uleb128_u16(&mut self) -> Result<u16> {
+        let v = self.leb_raw()?.0;
+        u16::try_from(v).map_err(|_| Error::BadUnsignedLeb128)
+    }
+    fn read_sleb128(&mut self) -> Result<i64> {
+        let (v, last) = self.leb_raw()?;
+        #[cfg(kani)]
+        kani::assume(K < 10 || (last & 0x7f) == 0 || (last & 0x7f) == 0x7f);
+        let mut r = v as i64;
+        if K < 10 {
+            if last & 0x40 != 0 {
+                r |= (!0i64) << (7 * K as u32);
+            }
+        } else if last & 0x7f == 0x7f {
+            r |= 1i64 << 63;
+        }
+        Ok(r)
+    }
+}
+
 /// Reference (harness-side) decoders over plain byte slices, written from the DWARF standard (§7.6).
 pub fn ref_uleb(buf: &[u8]) -> Option<(u128, usize)> {
     let mut v: u128 = 0;
